@@ -214,8 +214,11 @@ func (s *Scratch) replayModel(rel string, m *Model) string {
 	mp := filepath.Join(s.Dir, fmt.Sprintf("model_%s.json", m.Harness))
 	os.WriteFile(mp, data, 0o644)
 	env := append(goEnv(), "VX_MODEL="+mp)
-	out, _, _ := runCmd(s.Repo, env, 5*time.Minute, "go", "test", "-v", "-vet=off", "-count=1", "-run", "^TestVXReplay$", "./"+rel)
+	out, _, _ := runCmd(s.Repo, env, 5*time.Minute, "go", "test", "-v", "-vet=off", "-count=1", "-timeout", "30s", "-run", "^TestVXReplay$", "./"+rel)
 	first := ""
+	if !strings.Contains(out, "REPLAY: ") && (strings.Contains(out, "all goroutines are asleep") || strings.Contains(out, "test timed out")) {
+		return "panic native run blocked forever (deadlock / test timed out after 30s)"
+	}
 	for _, l := range strings.Split(out, "\n") {
 		if strings.HasPrefix(l, "REPLAY: ") {
 			first = strings.TrimPrefix(l, "REPLAY: ")
@@ -224,7 +227,10 @@ func (s *Scratch) replayModel(rel string, m *Model) string {
 	}
 	if first == "passed" {
 		// the model may depend on the runtime's map iteration order, which cannot be forced: retry
-		out2, _, _ := runCmd(s.Repo, env, 5*time.Minute, "go", "test", "-v", "-vet=off", "-count=40", "-run", "^TestVXReplay$", "./"+rel)
+		out2, _, _ := runCmd(s.Repo, env, 5*time.Minute, "go", "test", "-v", "-vet=off", "-count=40", "-timeout", "120s", "-run", "^TestVXReplay$", "./"+rel)
+		if strings.Contains(out2, "all goroutines are asleep") || strings.Contains(out2, "test timed out") {
+			return "panic native run blocked forever in some of 40 runs (deadlock / test timed out)"
+		}
 		n, bad := 0, ""
 		for _, l := range strings.Split(out2, "\n") {
 			if strings.HasPrefix(l, "REPLAY: ") {
@@ -236,7 +242,7 @@ func (s *Scratch) replayModel(rel string, m *Model) string {
 			}
 		}
 		if bad != "" {
-			return bad + fmt.Sprintf(" (in some of %d native runs: depends on the runtime's map iteration order)", n+1)
+			return bad + fmt.Sprintf(" (in some of %d native runs: depends on the runtime's map iteration order or goroutine schedule)", n+1)
 		}
 		return "passed"
 	}
